@@ -15,13 +15,15 @@ TRUSTED = {
     'A7': 'A7 LineNumbers::{new,get} (RefCell + recursion) are external_body: assumed to terminate and return some usize',
     'A8': 'A8 termination of display_width\'s loop: the proved invariant shows remaining() strictly shrinks, but Verus forbids prophetic values in '
           'decreases (exec_allows_no_decreases_clause on that one function)',
-    'A9': 'A9 tiling contracts of the closure-based callees (find_words, split_words, break_apart): word ++ whitespace concatenate to the line; assumed in '
-          'Verus, checked exhaustively within scope by BEC (C11/C12 contracts)',
+    'A9': 'A9 tiling contracts of the closure-based callees: word ++ whitespace concatenate to the line. For the ASCII separator this is PROVED (unit U13, '
+          'find_words_ascii_space after closure conversion R16); for the Unicode separator, split_words and break_apart it is assumed in Verus and checked exhaustively within scope by BEC (C11/C12 contracts)',
     'A10': 'A10 str slicing in wrap\'s reassembly is proved range-safe; char-boundary safety of &line[idx..idx+len] is checked by BEC only',
     'A11': 'A11 stated preconditions: wrap_optimal_fit: fragments.len() < usize::MAX; wrap_columns: columns <= isize::MAX and '
            'display_width(middle_gap)*(columns-1) <= usize::MAX (the "result could not fit in memory" exemption made precise)',
     'A12': 'A12 the rewrite rules R0-R15 preserve behaviour (each application is logged in the evidence); the Python lexer/merger, Verus, Z3, Kani/CBMC, rustc',
     'A13': 'A13 BEC oracles: unicode-linebreak 0.1.5 and unicode-width 0.2.0 from the cargo registry are taken as the UAX #14 / width tables the properties refer to',
+    'R16': 'R16 closure conversion: the body of an `iter::from_fn(move || …)` closure is verified as the `next` method of a struct holding the captured variables '
+           '(same tokens, captures prefixed by `self.`); that `collect()` calls `next` until None and keeps the items in order is std behaviour (A4)',
     'R15': 'R15 generic parameters are verified at one instance: Opt = Options<\'a> (Into is the identity there), I = Vec<Word<\'a>>',
 }
 
@@ -32,7 +34,7 @@ KANI = {'K1.default': K1, 'K1.no-default-features': K1MIN}
 
 PROPS = {
     'C01': {
-        'units': ['U11', 'U6', 'U1'], 'level': 'other', 'trusted': ['A1', 'A3', 'A4', 'A5', 'A9', 'A10', 'A12', 'R15'],
+        'units': ['U11', 'U6', 'U1', 'U13'], 'level': 'other', 'trusted': ['A1', 'A3', 'A4', 'A5', 'A9', 'A10', 'A12', 'R15', 'R16'],
         'proved_part': 'Verus (all inputs): wrap_single_line_slow_path appends, for an ordered partition (runs) of a tiling of the line, exactly '
                        'indent_k ++ line[a_k .. a_k+len_k] ++ penalty_k with a_k = bytes of all earlier runs (whitespace included) and len_k = bytes of run k minus its last '
                        'whitespace — so slices are in order, never overlap, and only trailing whitespace of each run is skipped; earlier lines are untouched; Word::from is lossless '
@@ -61,7 +63,7 @@ PROPS = {
         'explanation': 'Mixed: the cost model and the structure are proved; minimality is bounded-only (Verus has no float theory; SMAWK\'s guarantee needs total monotonicity).',
     },
     'C04': {
-        'units': ['U1', 'U2', 'U3', 'U4', 'U5', 'U6', 'U8', 'U10', 'U11', 'U12'], 'level': 'other', 'kani': [K1, K1MIN],
+        'units': ['U1', 'U2', 'U3', 'U4', 'U5', 'U6', 'U8', 'U10', 'U11', 'U12', 'U13'], 'level': 'other', 'kani': [K1, K1MIN],
         'trusted': ['A1', 'A2', 'A3', 'A4', 'A5', 'A6', 'A7', 'A8', 'A9', 'A10', 'A11', 'A12', 'R15'],
         'proved_part': 'Verus: absence of panics (index/slice bounds incl. char boundaries in NonEmptyLines, arithmetic overflow, unwrap on None, callee preconditions) and '
                        'termination for wrap_first_fit, wrap_optimal_fit (Err only from the is_infinite test), skip_ansi_escape_sequence, display_width (A8), NonEmptyLines::next, '
@@ -115,11 +117,14 @@ PROPS = {
         'explanation': 'Proof: display_width equals the spec function written from the statement, for all texts (Verus); per-char facts for all chars (Kani, and exhaustive enumeration).',
     },
     'C11': {
-        'units': ['U6'], 'level': 'other', 'trusted': ['A3', 'A4', 'A12', 'A13'],
-        'proved_part': 'Verus: Word::from — word ++ whitespace is the input, whitespace is spaces only, the word does not end in a space, width == display width, no penalty.',
-        'bounded_part': 'BEC: the separators themselves (from_fn closures): losslessness; ASCII boundaries == {space followed by non-space}; Unicode boundaries == UAX #14 '
-                        'opportunities of the stripped line minus those after \'-\'/SHY, none inside an escape sequence.',
-        'explanation': 'Mixed: per-word construction is proved; the boundary positions are produced by state-mutating closures Verus rejects and are checked by bounded exhaustive enumeration.',
+        'units': ['U6', 'U13'], 'level': 'other', 'trusted': ['A3', 'A4', 'A12', 'A13'],
+        'proved_part': 'Verus: Word::from — word ++ whitespace is the input, whitespace is spaces only, the word does not end in a space, width == display width, no penalty. '
+                       'ASCII separator (U13, all lines): every word is Word::from(line[s0..s1]) where s1 is the first position after s0 at which a space is followed by a non-space '
+                       '(or the end of the line) — the boundaries are exactly those positions — and the collected words tile the line.',
+        'bounded_part': 'BEC: the Unicode separator (needs the external unicode-linebreak tables): losslessness; boundaries == UAX #14 opportunities of the stripped line minus those '
+                        'after \'-\'/SHY, none inside an escape sequence; and both separators again by execution.',
+        'explanation': 'Mixed: per-word construction and the complete ASCII half of the statement are proved (closure conversion R16 brings the from_fn closure to Verus); the Unicode half '
+                       'depends on the external UAX #14 implementation and is checked by bounded exhaustive enumeration.',
     },
     'C12': {
         'units': ['U6'], 'level': 'other', 'trusted': ['A3', 'A4', 'A9', 'A12', 'R15'],
@@ -151,7 +156,7 @@ PROPS = {
         'explanation': 'Bounded only: relational over fill/refill.',
     },
     'C17': {
-        'units': ['U10', 'U1'], 'level': 'other', 'trusted': ['A1', 'A3', 'A4', 'A5', 'A9', 'A12'],
+        'units': ['U10', 'U1', 'U13'], 'level': 'other', 'trusted': ['A1', 'A3', 'A4', 'A5', 'A9', 'A12', 'R16'],
         'proved_part': 'Verus, all inputs: fill_inplace keeps the length and every changed byte was \' \' and became \'\\n\' (under the ASCII tiling contract A9 and first-fit\'s partition).',
         'bounded_part': 'BEC: full statement including agreement with wrap at the documented options.',
         'explanation': 'Mixed: the in-place edit is proved; agreement with wrap is relational and bounded.',
